@@ -311,7 +311,11 @@ impl<'a> PGen<'a> {
 
     /// Foreign, unallocated or out-of-range address.
     fn foreign_addr(&mut self, r: u8) {
-        match self.g.below(10) {
+        match self.g.below(13) {
+            // just beyond the own heap buffer: the caller's heap (or unallocated memory in a script)
+            10 | 11 => emit!(self, ri12(O::ADDI, r, HEAP, HEAP_BUF + (self.g.below(40) * 8) as u32)),
+            // the last bytes of the own heap buffer, so that a longer write spills into the caller's
+            12 => emit!(self, ri12(O::ADDI, r, HEAP, HEAP_BUF - 32 + self.g.below(32) as u32)),
             0 => emit!(self, ri12(O::ADDI, r, TAB, self.g.below(TAB_LEN as u64) as u32)), // tx bytes
             1 => emit!(self, ri12(O::ADDI, r, IS, self.g.below(64) as u32)),               // code
             2 => emit!(self, ri12(O::ADDI, r, ZERO, self.g.below(400) as u32)),            // tx id / balances area
@@ -551,13 +555,20 @@ impl<'a> PGen<'a> {
         self.addr_of_key(A, k);
         let d = self.nreg();
         let st = self.nreg();
+        // destination of storage reads: the own heap buffer, or (wild) memory the frame does not own
+        let dst = if wild && self.g.bool() {
+            self.foreign_addr(D);
+            D
+        } else {
+            HEAP
+        };
         // scratch area of the heap buffer: [0,128) values, [128,176) call struct, [192,…) misc
         match self.g.below(16) {
             0 => emit!(self, r4(O::SRW, d, st, A, if wild { self.g.below(9) } else { self.g.below(4) } as u8)),
             1 | 15 => {
                 let n = *self.g.pick(&[1u64, 1, 2, 3]);
                 self.load_const(C, if wild { n * 3 } else { n });
-                emit!(self, r4(O::SRWQ, HEAP, st, A, C));
+                emit!(self, r4(O::SRWQ, dst, st, A, C));
             }
             2 => {
                 let v = self.sreg();
@@ -582,12 +593,12 @@ impl<'a> PGen<'a> {
                 let (off, len) = if wild { (self.g.below(40), self.biased_small().min(120)) } else { (self.g.below(8), self.g.below(24)) };
                 self.load_const(B, off);
                 self.load_const(C, len);
-                emit!(self, r4(O::SRDD, HEAP, A, B, C));
+                emit!(self, r4(O::SRDD, dst, A, B, C));
             }
             7 => {
                 let off = if wild { self.g.below(40) } else { self.g.below(8) };
                 self.load_const(B, off);
-                emit!(self, r4(O::SRDI, HEAP, A, B, if wild { self.g.below(64) } else { self.g.below(24) } as u8));
+                emit!(self, r4(O::SRDI, dst, A, B, if wild { self.g.below(64) } else { self.g.below(24) } as u8));
             }
             8 => {
                 let len = *self.g.pick(&[0u64, 8, 31, 32, 33, 100]);
@@ -758,14 +769,22 @@ impl<'a> PGen<'a> {
         match self.g.below(8) {
             0 => emit!(self, r2(O::CSIZ, d, A)),
             1 => {
-                emit!(self, ri12(O::ADDI, B, HEAP, 192));
+                if wild && self.g.bool() {
+                    self.foreign_addr(B);
+                } else {
+                    emit!(self, ri12(O::ADDI, B, HEAP, 192));
+                }
                 emit!(self, r2(O::CROO, B, A));
             }
             2 => {
                 let (off, len) = if wild { (self.g.below(300), self.biased_small().min(400)) } else { (self.g.below(64), self.g.below(200)) };
                 self.load_const(C, off);
                 self.load_const(D, len);
-                emit!(self, ri12(O::ADDI, B, HEAP, 256));
+                if wild && self.g.bool() {
+                    self.foreign_addr(B);
+                } else {
+                    emit!(self, ri12(O::ADDI, B, HEAP, 256));
+                }
                 emit!(self, r4(O::CCP, B, A, C, D));
             }
             3 | 4 => {
@@ -872,12 +891,29 @@ impl<'a> PGen<'a> {
         self.owned_addr(A, 200);
         let n = if wild { self.biased_small().min(400) } else { self.g.below(64) };
         self.load_const(C, n);
-        emit!(self, ri12(O::ADDI, B, HEAP, 192));
-        match self.g.below(if wild { 6 } else { 2 }) {
+        if wild && self.g.bool() {
+            self.foreign_addr(B);
+        } else {
+            emit!(self, ri12(O::ADDI, B, HEAP, 192));
+        }
+        match self.g.below(if wild { 9 } else { 3 }) {
+            2 | 6 | 7 => {
+                // alt_bn128 point operations on (mostly zero) points of the heap buffer:
+                // curve 0, operation add (0) or mul (1); all-zero points give the point at infinity
+                emit!(self, ri18(O::MOVI, C, self.g.below(2) as u32));
+                emit!(self, ri12(O::ADDI, D, HEAP, 320));
+                emit!(self, r4(O::ECOP, B, ZERO, C, D));
+            }
+            8 => {
+                emit!(self, ri18(O::MOVI, C, self.g.below(3) as u32));
+                emit!(self, ri12(O::ADDI, D, HEAP, 320));
+                let dd = self.nreg();
+                emit!(self, r4(O::EPAR, dd, ZERO, C, D));
+            }
             0 => emit!(self, r3(O::S256, B, A, C)),
             1 => emit!(self, r3(O::K256, B, A, C)),
-            2 => emit!(self, r3(O::ECK1, B, A, STK)),
-            3 => emit!(self, r3(O::ECR1, B, A, STK)),
+            3 => emit!(self, r3(O::ECK1, B, A, STK)),
+            5 => emit!(self, r3(O::ECR1, B, A, STK)),
             4 => emit!(self, r4(O::ED19, B, A, STK, C)),
             _ => emit!(self, r3(O::S256, A, HEAP, C)),
         }
